@@ -143,36 +143,43 @@ func l2WellFormed(id string, body []byte) string {
 	return ""
 }
 
-// l2Stream classifies a byte stream: the first defect in stream order, "" if every frame is
-// well formed, "incomplete" if it ends inside a frame
-func l2Stream(s []byte) string {
-	for len(s) > 0 {
-		if len(s) < 4 {
-			return "incomplete"
+// l2Stream classifies a byte stream: the first defect in stream order ("" if every frame is well
+// formed, "incomplete" if it ends inside a frame), the offset just behind the first defective
+// frame (all of the stream for a bad length prefix) and the number of well-formed PING frames in
+// front of the defect
+func l2Stream(s []byte) (defect string, end int, pings int) {
+	off := 0
+	for off < len(s) {
+		rest := s[off:]
+		if len(rest) < 4 {
+			return "incomplete", len(s), pings
 		}
-		l := binary.LittleEndian.Uint32(s)
+		l := binary.LittleEndian.Uint32(rest)
 		if l < 4 {
-			if len(s) == 4 {
-				return "incomplete" // a receiver may wait for one more byte before judging
+			if len(rest) == 4 {
+				return "incomplete", len(s), pings // a receiver may wait for one more byte before judging
 			}
-			return "length-below-minimum"
+			return "length-below-minimum", len(s), pings
 		}
 		if l > l2MaxMsg {
-			if len(s) == 4 {
-				return "incomplete"
+			if len(rest) == 4 {
+				return "incomplete", len(s), pings
 			}
-			return "length-above-maximum"
+			return "length-above-maximum", len(s), pings
 		}
-		if uint64(len(s)-4) < uint64(l) {
-			return "incomplete"
+		if uint64(len(rest)-4) < uint64(l) {
+			return "incomplete", len(s), pings
 		}
-		f := s[4 : 4+l]
-		s = s[4+l:]
+		f := rest[4 : 4+l]
+		off += 4 + int(l)
 		if v := l2WellFormed(string(f[:4]), f[4:]); v != "" {
-			return v
+			return v, off, pings
+		}
+		if string(f[:4]) == "PING" {
+			pings++
 		}
 	}
-	return ""
+	return "", len(s), pings
 }
 
 // ---------------------------------------------------------------------------------
@@ -272,8 +279,8 @@ func l2Valid(id string, rng *rand.Rand, pub []byte, n int) []byte {
 
 var l2Maxlen = map[string]int{"GIVP": 512, "GIVB": 128, "GETT": 256, "ANNT": 256, "GIVT": 256}
 
-var l2Classes = []string{"valid", "truncated", "extended", "bit-flipped", "count-at-maxlen", "count-beyond-maxlen", "count-huge", "random-body",
-	"length-prefix-0-3", "length-prefix-max+1", "length-prefix-max+1-full-frame", "length-prefix-2^31", "length-prefix-2^32-1", "length-prefix-maximum-exactly", "unknown-id", "garbage-stream"}
+var l2Classes = []string{"valid", "length-prefix-max+1-full-frame", "truncated", "extended", "bit-flipped", "count-at-maxlen", "count-beyond-maxlen", "count-huge", "random-body",
+	"length-prefix-0-3", "length-prefix-max+1", "length-prefix-2^31", "length-prefix-2^32-1", "length-prefix-maximum-exactly", "unknown-id", "garbage-stream"}
 
 type l2Case struct {
 	Pre    bool // before the introduction
@@ -281,6 +288,7 @@ type l2Case struct {
 	Class  string
 	Stream []byte
 	Defect string // reference verdict on the stream ("" / incomplete / defect class)
+	Pings  int    // well-formed PING frames in front of the defect (each may be answered by a PONG)
 }
 
 func l2Frame(id string, body []byte) []byte {
@@ -376,8 +384,10 @@ func l2Gen(i int, rng *rand.Rand, pub []byte) l2Case {
 		// tokens: valid frames, broken frames, raw random bytes
 		for k := 1 + rng.Intn(4); k > 0; k-- {
 			t := l2Types[rng.Intn(len(l2Types))]
-			if t == "DISC" || t == "INTR" {
-				t = "PING"
+			if t == "DISC" || t == "INTR" || t == "PING" {
+				// no DISC / INTR (they would end or re-introduce the connection) and no PING (its
+				// PONG could not be told from the probe's when frames of a long stream get lost)
+				t = "GETP"
 			}
 			switch rng.Intn(5) {
 			case 0:
@@ -393,35 +403,13 @@ func l2Gen(i int, rng *rand.Rand, pub []byte) l2Case {
 	default:
 		c.Stream = l2Frame(c.Type, body)
 	}
-	c.Defect = l2Stream(c.Stream)
-	return c
-}
-
-// l2CutHazard reports whether a burst, cut by the receiver every 1024 bytes, would leave 5..7
-// bytes of a frame behind one or more complete frames in a single decode step. On the unchanged
-// tree the receiver then drops the complete frames (decodeData returns an empty list; found and
-// reported by the L1 leg), which would turn "malformed frame, then PING" into "PING only".
-func l2CutHazard(burst []byte) bool {
-	off, idx := 0, 0
-	for len(burst)-off >= 4 {
-		l := int(binary.LittleEndian.Uint32(burst[off:]))
-		if l < 4 || l > l2MaxMsg {
-			return false
-		}
-		end := off + 4 + l
-		if idx > 0 {
-			next := (off/1024 + 1) * 1024 // first cut after the frame start
-			if d := next - off; d >= 5 && d <= 7 && next < end && next < len(burst) {
-				return true
-			}
-		}
-		if end > len(burst) {
-			return false
-		}
-		off = end
-		idx++
+	var end int
+	c.Defect, end, c.Pings = l2Stream(c.Stream)
+	if c.Defect != "" && c.Defect != "incomplete" {
+		// nothing behind the first defective frame: what follows a defect decides nothing
+		c.Stream = c.Stream[:end]
 	}
-	return false
+	return c
 }
 
 // ---------------------------------------------------------------------------------
@@ -468,7 +456,7 @@ func runL2(r *vf.Run) {
 		r.Inconclusive("l2: vnode binary missing (cmd/c22/build.txt must list it): " + err.Error())
 		return
 	}
-	total := r.Pick(5400, 150000)
+	total := r.Pick(5400, 100000)
 	nodes := r.Pick(6, 16)
 	per := total / nodes
 	root := vf.TempDir("c22l2")
@@ -603,28 +591,46 @@ func l2Run(r *vf.Run, proc *node.Proc, c l2Case, pub []byte, mirror uint32, ni, 
 		from = pi + 1
 	}
 	malformed := c.Defect != "" && c.Defect != "incomplete"
-	// the stream, then (before the introduction) a valid introduction, then the probe PING
-	out := append([]byte(nil), c.Stream...)
-	if c.Defect != "incomplete" {
-		if c.Pre {
-			out = append(out, intro...)
-		}
-		out = append(out, ping...)
+	// the stream, then the probe: (before the introduction) a valid introduction, and a PING
+	probe := ping
+	if c.Pre {
+		probe = append(append([]byte(nil), intro...), ping...)
 	}
-	if l2CutHazard(out) {
-		// see l2CutHazard: this burst would run into the receiver's message-loss-at-read-cut defect
-		// (reported by the L1 leg); the case is skipped so that L2 judges only what it is about
-		r.Count("l2.skipped.read-cut-alignment", 1)
-		return
-	}
-	_ = p.SendRaw(out) // a write error means the node has already closed
 	if c.Defect == "incomplete" {
 		// the receiver legitimately waits for more bytes: nothing to judge except survival
+		_ = p.SendRaw(c.Stream)
 		r.Count("l2.incomplete."+phase, 1)
 		r.Distinct("l2:" + phase + ":" + c.Type + ":" + c.Class + ":incomplete")
 		return
 	}
-	_, gotPong := p.WaitFor("PONG", from, l2Watchdog)
+	if len(c.Stream)+len(probe) <= 1000 {
+		// one burst, shorter than the receiver's 1024-byte read buffer: it is never cut
+		_ = p.SendRaw(append(append([]byte(nil), c.Stream...), probe...)) // a write error means the node has already closed
+		r.Count("l2.sent.one-burst", 1)
+	} else {
+		// A longer burst is cut by the receiver at read-buffer boundaries, and on the unchanged tree
+		// complete frames in front of a cut frame are then dropped (decodeData; found by the L1 leg),
+		// which would make a malformed frame vanish in front of the probe. So the stream goes first
+		// and the probe only after the node had time to consume it; the verdict stays logical: EOF is
+		// a disconnect, a PONG for the probe is not.
+		_ = p.SendRaw(c.Stream)
+		r.Count("l2.sent.stream-then-probe", 1)
+		if !malformed || !p.WaitClosed(5*time.Second) {
+			_ = p.SendRaw(probe)
+		}
+	}
+	gotPong := false
+	for n, idx := 0, from; ; {
+		pi, ok := p.WaitFor("PONG", idx, l2Watchdog)
+		if !ok {
+			break
+		}
+		n, idx = n+1, pi+1
+		if n > c.Pings { // more PONGs than PINGs in front of the defect: the probe was answered
+			gotPong = true
+			break
+		}
+	}
 	switch {
 	case gotPong && malformed:
 		r.Violation("l2-malformed-frame-not-answered-by-disconnect", attrs("observed", "PONG for a PING sent after the malformed frame"), wit())
